@@ -1,6 +1,6 @@
 """C15 — combinatorial iterators: grid-neighbour clause in full; type coverage, no-panic steppers,
 sentinels, iterator protocol for masks and permutations (thin).  DESIGN.md §4 C15."""
-from .. import util
+from .. import util, zones
 from ..absint import tstr, mk_int, subterms
 from ..core import Anchor
 
@@ -247,6 +247,97 @@ def _neighbours_semantic(col, crate, fn, table, b, fk):
     return True
 
 
+def _mask_roles(crate):
+    """names of the IterMasks methods by the role they play for the public entry points: the stepper is the
+    two-argument trait method reached from iter_submasks / iter_supermasks (through closures and private helpers),
+    the sentinel the argument-less one.  Falls back to the names used today."""
+    out = {}
+    for fn, dflt in (("iter_submasks", ("next_submask", "zero")), ("iter_supermasks", ("next_supermask", "ones"))):
+        b = crate.body("masks::%s" % fn)
+        step, sent = set(), set()
+        seen, work = set(), [b] if b is not None else []
+        while work:
+            x = work.pop()
+            if x.key in seen:
+                continue
+            seen.add(x.key)
+            work.extend(crate.closures_of(x))
+            for _bb, t in x.calls():
+                f = t["fn"]
+                if str(f.get("trait") or "").endswith("IterMasks"):
+                    (step if len(t["args"]) == 2 else sent if len(t["args"]) == 0 else set()).add(f.get("name"))
+                tgt = crate.by_key.get(util.callee_key(t))
+                if tgt is not None and not tgt.is_closure and tgt.container is None and tgt.key not in seen:
+                    work.append(tgt)
+            # closures handed over by the entry point are bodies of their own
+        out[fn] = (step.pop() if len(step) == 1 else dflt[0], sent.pop() if len(sent) == 1 else dflt[1])
+    return out
+
+
+def _chain_semantic(crate, b, sent, stepper):
+    """from_fn(step).chain(<sentinel once>) possibly built by a private helper that takes the stepping closure:
+    the from_fn closure is run on its captured values; every path makes exactly one call of the trait stepper,
+    on a captured cell that starts at x, with x as the mask, and returns that call's result"""
+    # what the entry point does is judged with every free function it goes through inlined, public or not
+    helpers = [f_ for f_ in crate.bodies if not f_.is_closure and f_.kind == "Fn" and f_.container is None and not util.self_recursive(f_) and f_.key != b.key]
+    try:
+        I = util.analyser(helpers, features=("fncall", "comb"))(b)
+    except Exception:
+        return False
+    x = ("param", 1, I.names.get(1))
+    if not I.final_states:
+        return False
+    for st in I.final_states:
+        r = util.ret_term(st)
+        evs = [e for e in st.event_list() if e.kind == "call"]
+        ch = [e for e in evs if e.extra.get("name") == "chain"]
+        if len(ch) != 1 or r != ch[0].res:
+            return False
+        a0, a1 = ch[0].args
+
+        def is_sent(v):
+            return isinstance(v, tuple) and v and v[0] == "call" and str(v[1]).endswith("IterMasks::" + sent) and not [y for y in v[2] if not (isinstance(y, tuple) and y and y[0] == "mem")]
+
+        tail = (a1[0] == "agg" and a1[1] == "array" and len(a1[2]) == 1 and is_sent(a1[2][0])) or (a1[0] == "call" and str(a1[1]).endswith("iter::once") and a1[2] and is_sent(a1[2][0])) or (a1[0] == "agg" and isinstance(a1[1], tuple) and a1[1][3] == "Some" and is_sent(a1[2][0]))
+        if not tail or not (a0[0] == "call" and str(a0[1]).endswith("from_fn") and a0[2]):
+            return False
+        clos = a0[2][0]
+        if not (clos[0] == "agg" and isinstance(clos[1], tuple) and clos[1] and clos[1][0] == "closure"):
+            return False
+        outs = I._apply_closure(st.fork(), 0, clos, ())
+        if not outs:
+            return False
+        n0 = len(evs)
+        for ns, res in outs:
+            calls = [e for e in ns.event_list() if e.kind == "call"][n0:]
+            steps = [e for e in calls if e.extra.get("name") == stepper and str(e.extra.get("trait") or "").endswith("IterMasks")]
+            others = [e for e in calls if e not in steps and not e.extra.get("inlined") and not e.extra.get("pure")]
+            if len(steps) != 1 or others or res != steps[0].res:
+                return False
+            cell, mask = steps[0].args[0], steps[0].args[1]
+            if mask != x or cell[0] != "ref":
+                return False
+            # the cell is a captured value (possibly of a closure captured in turn) whose initial value is x
+            pl = cell[1]
+            path = []
+            while pl[0] in ("field", "deref"):
+                if pl[0] == "field":
+                    path.append(pl[2])
+                pl = pl[1]
+                if pl[0] == "ref":
+                    pl = pl[1]
+            if pl[0] != "constval":
+                return False
+            v = pl[1]
+            for k in reversed(path):
+                if not (isinstance(v, tuple) and v and v[0] == "agg" and isinstance(k, int) and k < len(v[2])):
+                    return False
+                v = v[2][k]
+            if v != x:
+                return False
+    return True
+
+
 def check(col, prog, tier, profile, fixture=None):
     crate = prog.crate(fixture or "rlib_iter")
     fk = util.fkey
@@ -266,18 +357,20 @@ def check(col, prog, tier, profile, fixture=None):
         col.violation("I1", "IterMasks|12-types", "rlib/iter/src/masks.rs", "IterMasks must be implemented for exactly the 12 primitive integer types; missing %s, extra %s" % (sorted(set(INTS) - set(tys)), sorted(set(tys) - set(INTS))))
 
     # ---------------- I2 / I3
+    MR = _mask_roles(crate)
+    ZERO_N, ONES_N = MR["iter_submasks"][1], MR["iter_supermasks"][1]
     for ty in INTS:
         if ty not in tys:
             continue
-        for nm in ("next_submask", "next_supermask"):
-            b = util.need_body(crate, "<%s as masks::IterMasks>::%s" % (ty, nm))
+        for nm, nm_ in (("next_submask", MR["iter_submasks"][0]), ("next_supermask", MR["iter_supermasks"][0])):
+            b = util.need_body(crate, "<%s as masks::IterMasks>::%s" % (ty, nm_))
             asserts = [blk["term"]["msg"]["k"] for blk in b.blocks if not blk["cleanup"] and blk["term"]["k"] == "assert"]
             key = "%s|no-overflow-assert" % fk(b)
             if not [a for a in asserts if a.startswith("overflow")]:
                 col.ok("I2", b.loc(), key, "no overflow assertion: minimum / all-ones cannot panic", nontrivial=False)
             else:
                 col.violation("I2", key, b.loc(), "%s contains a checked arithmetic operation: it panics in debug builds at the signed minimum / all-ones" % b.path)
-            consts_ = [c_ for c_ in crate.bodies if not c_.is_closure and c_.name in ("zero", "ones") and c_.path.startswith("<%s as masks::IterMasks>" % ty)]
+            consts_ = [c_ for c_ in crate.bodies if not c_.is_closure and c_.name in (ZERO_N, ONES_N) and c_.path.startswith("<%s as masks::IterMasks>" % ty)]
             I = util.analyser(consts_)(b)
             selfp = ("deref", ("param", 1, I.names.get(1)))
             x = ("param", 2, I.names.get(2))
@@ -300,10 +393,17 @@ def check(col, prog, tier, profile, fixture=None):
                 stores = [e for e in st.event_list() if e.kind == "store" and e.place == selfp]
                 if r[0] == "agg" and r[1][3] == "None":
                     if nm == "next_submask":
-                        okn = (("eq", ("bin", "Eq", old, mk_int(0)), 1) in st.facts or any(f[0] == "eq" and f[1] == old and f[2] == 0 and not isinstance(f[2], bool) for f in st.facts)) and not stores
+                        okn = (("eq", ("bin", "Eq", old, mk_int(0)), 1) in st.facts or any(f[0] == "eq" and f[1] == old and f[2] == 0 and not isinstance(f[2], bool) for f in st.facts) or zones.entails(st.facts, "Eq", old, mk_int(0), I.tys)) and not stores
                     else:
                         okn = any(f[0] == "eq" and f[2] == 1 and isinstance(f[1], tuple) and f[1][0] == "bin" and f[1][1] == "Eq" and f[1][3] == mk_int(0) and f[1][2][0] == "call" and str(f[1][2][1]).endswith("count_zeros") for f in st.facts) and not stores
                         okn = okn or (any(f[0] == "eq" and f[2] == 1 and isinstance(f[1], tuple) and f[1][0] == "bin" and f[1][1] == "Eq" and ((f[1][2] == old and all_ones(f[1][3])) or (f[1][3] == old and all_ones(f[1][2]))) for f in st.facts) and not stores)
+                        # any spelling of the two tests above that the path facts entail (`!= 0` with swapped arms, ...)
+                        for f in st.facts:
+                            for z in ([f[1]] + list(subterms(f[1]))) if isinstance(f[1], tuple) else []:
+                                if (z[0] == "call" and str(z[1]).endswith("count_zeros") and z[2] and z[2][0] == old) or z == ("un", "Not", old):
+                                    okn = okn or (zones.entails(st.facts, "Eq", z, mk_int(0), I.tys) and not stores)
+                        # `!cur == 0`: the complement is zero exactly for the all-ones mask
+                        okn = okn or (any(f[0] == "eq" and f[2] == 1 and isinstance(f[1], tuple) and f[1][0] == "bin" and f[1][1] == "Eq" and f[1][3] == mk_int(0) and f[1][2] == ("un", "Not", old) for f in st.facts) and not stores)
                         # `match current.count_zeros() { 0 => None, .. }`
                         okn = okn or (any(f[0] == "eq" and f[2] == 0 and not isinstance(f[2], bool) and isinstance(f[1], tuple) and f[1] and f[1][0] == "call" and str(f[1][1]).endswith("count_zeros") and f[1][2][0] == old for f in st.facts) and not stores)
                         # `match current { MAX_PATTERN => None, .. }` on the value itself
@@ -321,8 +421,8 @@ def check(col, prog, tier, profile, fixture=None):
                 col.ok("I3", b.loc(), key, "None at the terminal mask; else step and return the previous value")
             else:
                 col.violation("I3", key, b.loc(), "%s is not the documented stepper (%s)" % (b.path, why or "termination test or step differs"))
-        zb = util.need_body(crate, "<%s as masks::IterMasks>::zero" % ty)
-        ob = util.need_body(crate, "<%s as masks::IterMasks>::ones" % ty)
+        zb = util.need_body(crate, "<%s as masks::IterMasks>::%s" % (ty, ZERO_N))
+        ob = util.need_body(crate, "<%s as masks::IterMasks>::%s" % (ty, ONES_N))
         Iz, Io = util.analyse(zb), util.analyse(ob)
         okz = all(util.ret_term(st) == mk_int(0) for st in Iz.final_states)
         bits = {"8": 1, "16": 2, "32": 4, "64": 8, "128": 16, "size": 8}[ty[1:]]
@@ -340,7 +440,7 @@ def check(col, prog, tier, profile, fixture=None):
             col.ok("I3", zb.loc(), key, "zero() = 0, ones() = %d bytes of 0xff" % bits, nontrivial=False)
         else:
             col.violation("I3", key, ob.loc(), "%s::zero()/ones() are not 0 / all-ones" % ty)
-    for fn, sent, stepper in (("iter_submasks", "zero", "next_submask"), ("iter_supermasks", "ones", "next_supermask")):
+    for fn, sent, stepper in (("iter_submasks", ZERO_N, MR["iter_submasks"][0]), ("iter_supermasks", ONES_N, MR["iter_supermasks"][0])):
         b = util.need_body(crate, "masks::%s" % fn)
         I = util.analyse(b)
         ok = False
@@ -360,6 +460,8 @@ def check(col, prog, tier, profile, fixture=None):
                 # the closure starts from x and steps against x
                 caps = a0[2][0][2] if a0[2] and a0[2][0][0] == "agg" else ()
                 ok = ok and all(c == ("param", 1, I.names.get(1)) for c in caps) and len(caps) == 2
+        if not ok:
+            ok = _chain_semantic(crate, b, sent, stepper)
         key = "%s|from_fn-chain-sentinel" % fk(b)
         if ok:
             col.ok("I3", b.loc(), key, "from_fn(|| cur.%s(x)).chain([%s()]) starting at x" % (stepper, sent))
@@ -532,7 +634,7 @@ def check(col, prog, tier, profile, fixture=None):
     DATA_NAME = ["data"]
     b = util.need_body(crate, "permutations::iter_permutations")
     # constructors of the iterator type (PermutationIter::new(data)) and private helpers are inlined
-    ctor_helpers = [m for m in crate.bodies if not m.is_closure and m.kind in ("Fn", "AssocFn") and not util.self_recursive(m) and m.key != b.key and (m.vis != "pub" or ("PermutationIter" in m.path and not (crate.impl_of(m) or {}).get("of_trait")))]
+    ctor_helpers = [m for m in crate.bodies if not m.is_closure and m.kind in ("Fn", "AssocFn") and not util.self_recursive(m) and m.key != b.key and (m.vis != "pub" or ("PermutationIter" in m.path and not str((crate.impl_of(m) or {}).get("trait") or "").endswith("Iterator")))]
     I = util.analyser(ctor_helpers, features=("comb", "fncall"))(b)
     for st in I.final_states:
         evs = st.event_list()
@@ -603,7 +705,7 @@ def _next_permutation_anatomy(col, crate):
     fk = util.fkey
     b = util.need_body(crate, "permutations::next_permutation")
     free = [f_ for f_ in crate.bodies if not f_.is_closure and f_.kind == "Fn" and f_.container is None and f_.vis != "pub" and not util.self_recursive(f_) and f_.key != b.key]
-    I = util.analyser(free)(b)
+    I = util.analyser(free, features=("comb",))(b)
     datap = ("deref", ("param", 1, I.names.get(1)))
     LEN = ("len", ("load", ("m0",), datap))
 
@@ -674,6 +776,10 @@ def _next_permutation_anatomy(col, crate):
         sw = [e for e in evs if e.extra.get("name") == "swap"]
         rv = [e for e in evs if e.extra.get("name") == "reverse"]
         if ret == mk_int(0):
+            if not rv and not sw and zones.entails(st.facts, "Le", LEN, mk_int(1), I.tys):
+                # fewer than two elements: the only arrangement is sorted, reversing it would change nothing
+                tiny_ok = True
+                continue
             ok_wrap = len(rv) == 1 and rv[0].args[0] == ("ref", datap) and not sw
             if not ok_wrap:
                 why.append("the exhausted case must reverse the whole slice and return false")
@@ -693,7 +799,7 @@ def _next_permutation_anatomy(col, crate):
             i_el = i_t[2]
             ok_outer = True
             tail = rv[0].args[0]
-            tail_ok = tail[0] == "ref" and tail[1][0] == "range" and tail[1][1] == datap and tail[1][2][0] == "agg" and tail[1][2][1][1].endswith("RangeFrom") and tail[1][2][2] == (i_el,)
+            tail_ok = tail[0] == "ref" and tail[1][0] == "range" and tail[1][1] == datap and tail[1][2][0] == "agg" and tail[1][2][1][1].endswith("RangeFrom") and len(tail[1][2][2]) == 1 and util.lin_equal(tail[1][2][2][0], i_el)
             ok_swap = tail_ok and evs.index(sw[0]) < evs.index(rv[0])
             if not ok_swap:
                 why.append("swap, then reverse data[i..] expected")
@@ -706,17 +812,26 @@ def _next_permutation_anatomy(col, crate):
         if not by_find:
             asc = less(st.facts, i_t, i_el)
             tail = rv[0].args[0]
-            tail_ok = tail[0] == "ref" and tail[1][0] == "range" and tail[1][1] == datap and tail[1][2][0] == "agg" and tail[1][2][1][1].endswith("RangeFrom") and tail[1][2][2] == (i_el,)
+            tail_ok = tail[0] == "ref" and tail[1][0] == "range" and tail[1][1] == datap and tail[1][2][0] == "agg" and tail[1][2][1][1].endswith("RangeFrom") and len(tail[1][2][2]) == 1 and util.lin_equal(tail[1][2][2][0], i_el)
             ok_swap = asc and tail_ok and evs.index(sw[0]) < evs.index(rv[0])
             if not ok_swap:
                 why.append("ascent test data[i-1] < data[i], swap, then reverse data[i..] expected")
         # the partner: loop variable of a forward scan from i while data[j+1] > data[i-1]
         if j_t[0] == "phi":
             head, jl = j_t[1], j_t[2]
-            ent = [en.get(jl) for en in I.loop_entry.get(head, [])]
-            scan_from_i = bool(ent) and all(x == i_el for x in ent)
+            # the scan may sit in an inlined private helper: its loop belongs to that sub-analysis
+            L, work = I, [I]
+            while work:
+                x_ = work.pop()
+                hit = [h_ for h_ in x_.loop_entry if x_.uid(h_) == head]
+                if hit:
+                    L, head = x_, hit[0]
+                    break
+                work.extend(getattr(x_, "inlined_subs", []))
+            ent = [en.get(jl) for en in L.loop_entry.get(head, [])]
+            scan_from_i = bool(ent) and all(x is not None and util.lin_equal(x, i_el) for x in ent)
             step_ok = False
-            for bs in I.backedge_states.get(head, []):
+            for bs in L.backedge_states.get(head, []):
                 nj = bs.env.get(jl)
                 gt = less(bs.facts, i_t, ("bin", "Add", j_t, mk_int(1)))
                 lt_rev = False
